@@ -784,6 +784,7 @@ def main(quiet=False):
         fd, tmp = tempfile.mkstemp(dir=os.path.dirname(OUT), prefix='.Sharing', suffix='.tmp')
         with os.fdopen(fd, 'w') as fh:
             fh.write(text)
+        os.chmod(tmp, 0o644)
         os.replace(tmp, OUT)
     if not quiet:
         print('gen_sharing: variant=%s, %d sampler rows, %d scan sites (%d allowed), %d probe errors, %s' % (
